@@ -2249,8 +2249,16 @@ impl<'input, T: Input> Scanner<'input, T> {
     /// some contexts.
     #[allow(clippy::too_many_lines)]
     fn scan_plain_scalar(&mut self) -> Result<Token<'input>, ScanError> {
-        self.unroll_non_block_indents();
-        let indent = self.indent + 1;
+        // Continuation lines must be indented deeper than the enclosing block, not deeper than the
+        // one-column indents that `:` and `-` prepare. In block context those are dropped here. In
+        // a flow collection they must stay: they are what makes a later line of that collection
+        // that is indented no deeper than the enclosing block an error.
+        let indent = if self.flow_level > 0 {
+            self.block_indent() + 1
+        } else {
+            self.unroll_non_block_indents();
+            self.indent + 1
+        };
         let start_mark = self.mark;
 
         if self.flow_level > 0 && (start_mark.col as isize) < indent {
@@ -2382,6 +2390,15 @@ impl<'input, T: Input> Scanner<'input, T> {
             // check indentation level
             if self.flow_level == 0 && (self.mark.col as isize) < indent {
                 break;
+            }
+            if self.flow_level > 0
+                && (self.mark.col as isize) < indent
+                && !self.input.next_is_breakz()
+            {
+                return Err(ScanError::new_str(
+                    self.mark,
+                    "invalid indentation in flow construct",
+                ));
             }
         }
 
@@ -2640,6 +2657,19 @@ impl<'input, T: Input> Scanner<'input, T> {
             });
             self.indent += 1;
         }
+    }
+
+    /// The indentation of the innermost block collection, ignoring the indents created with
+    /// [`Self::roll_one_col_indent`].
+    fn block_indent(&self) -> isize {
+        let mut indent = self.indent;
+        for i in self.indents.iter().rev() {
+            if i.needs_block_end {
+                break;
+            }
+            indent = i.indent;
+        }
+        indent
     }
 
     /// Unroll all last indents created with [`Self::roll_one_col_indent`].
